@@ -282,7 +282,7 @@ func checkC17(p *Prog, l *Ledger) {
 		}
 		m := NewInterpModel(p, "builtin/"+tag)
 		m.EmitTests = true
-		m.KeepAsEvent = func(c *ssa.Function) bool { return c.Name() == "toNumber" || c.Name() == "toInt64" }
+		m.KeepAsEvent = func(c *ssa.Function) bool { return fnName(c) == "toNumber" || fnName(c) == "toInt64" }
 		mc := m.Explore(callFn, []AV{Sym("n"), Sym("i"), Sym("arguments")}, nil)
 		l.States += mc.States
 		l.Paths += mc.Paths
@@ -534,7 +534,7 @@ func checkMinMax(p *Prog, l *Ledger, name, tag string, callFn *ssa.Function, m *
 			return nil
 		}
 		c, ok := ex.Tuple.(*ssa.Call)
-		if !ok || c.Call.StaticCallee() == nil || c.Call.StaticCallee().Name() != "toNumber" {
+		if !ok || c.Call.StaticCallee() == nil || fnName(c.Call.StaticCallee()) != "toNumber" {
 			return nil
 		}
 		return c.Call.Args[0]
